@@ -233,6 +233,16 @@ impl Proto for V5 {
             }),
             Pk::PingResp => c5::Packet::PingResp(c5::PingResp),
             Pk::PingReq => c5::Packet::PingReq(c5::PingReq),
+            Pk::Subscribe(i) => {
+                let mut s = c5::Subscribe::new(c5::Filter::new("s/#", QoS::AtLeastOnce), None);
+                s.pkid = *i;
+                c5::Packet::Subscribe(s)
+            }
+            Pk::Unsubscribe(i) => {
+                let mut u = c5::Unsubscribe::new("s/#", None);
+                u.pkid = *i;
+                c5::Packet::Unsubscribe(u)
+            }
             // reason code 0x8b (server shutting down) with an explicit empty property list
             // (the short forms of DISCONNECT are the codec grid's business, property C04)
             Pk::Disconnect => return vec![0xe0, 0x02, 0x8b, 0x00],
